@@ -41,6 +41,8 @@ class Contract:
         self.concrete_dicts = g("concrete_dicts", False)   # shape-bounded mode: `{}` stays an enumerated dict
         self.comprehensions = g("comprehensions", {})   # ordinal (source order) -> "lambda x: <element spec>"
         self.modifies = g("modifies", [])
+        self.modifies_by_case = g("modifies_by_case", {})   # additional frame entries of single cases (call sites only)
+        self.evaluate_fstrings = g("evaluate_fstrings", False)   # f-strings with attribute / call parts are evaluated (default: message text, dropped)
         self.frame = g("frame", None)            # names of parameters that must not be mutated
         self.clause_tags = g("tags", {})         # label -> [props]
         self.self_model = g("self_model", None)  # model of cls/self
@@ -52,6 +54,7 @@ class Contract:
         self.ghost_effect = g("ghost_effect", None)   # {"counter": +n}: definitional effect on a ghost counter at every call
         self.ghost_effect_on_return = g("ghost_effect_on_return", None)   # the same, only for calls that return normally
         self.raises_only_cases = g("raises_only_cases", ())   # cases that legitimately never return (exempt from the vacuity guard)
+        self.replay_entry_state = g("replay_entry_state", False)   # replay counterexamples from a snapshot of the entry state of mutated containers
         self.replay = g("replay", None)          # name of the leaf-world builder (pyvc/leafharness.py) used to replay counterexamples
         self.doc = (spec.__doc__ or "").strip()
         self.defaults = g("defaults", {})
@@ -94,21 +97,25 @@ class Contract:
             return list(t)
         return list(self.props)
 
-    def old_exprs(self):
+    def old_exprs(self, case_name=None):
+        """old(...) sub-expressions of the clauses; with a case name only those of the clauses that case uses"""
         import ast
         out = []
         texts = list(self.returns.values())
         for d in self.raises.values():
             texts += list(d.values())
-        for d in self.returns_by_case.values():
-            texts += list(d.values())
-        for dd in self.raises_by_case.values():
-            for d in dd.values():
+        for cn, d in self.returns_by_case.items():
+            if case_name is None or cn == case_name:
                 texts += list(d.values())
+        for cn, dd in self.raises_by_case.items():
+            if case_name is None or cn == case_name:
+                for d in dd.values():
+                    texts += list(d.values())
         for lc in (self.loops or {}).values():
             texts += list(lc.get("invariant", {}).values())
-            for d in lc.get("invariant_by_case", {}).values():
-                texts += list(d.values())
+            for cn, d in lc.get("invariant_by_case", {}).items():
+                if case_name is None or cn == case_name:
+                    texts += list(d.values())
         seen_t = set()
         for t in texts:
             if t in seen_t:
